@@ -1084,4 +1084,96 @@ theorem run_writes_stages (b : Buf) (ops : List BOp) (h : WritesOnly ops) : (b.r
     | staging => simp [BOp.isWrite] at hop
     | release => simp [BOp.isWrite] at hop
     | cleanup => simp [BOp.isWrite] at hop
+
+/-! ## the loop of batch_getter.go as found: right exactly when no key is listed twice -/
+
+theorem lookup_mapErase (k : Bytes) (m : List KV) (k' : Bytes) :
+    lookup (mapErase k m) k' = if k' = k then none else lookup m k' := by
+  unfold mapErase
+  induction m with
+  | nil => simp [lookup]
+  | cons h t ih =>
+    obtain ⟨k₀, v₀⟩ := h
+    simp only [List.filter_cons]
+    by_cases h0 : k₀ = k
+    · subst h0
+      simp only [ne_eq, not_true_eq_false, decide_false, Bool.false_eq_true, if_false, ih, lookup]
+      by_cases h1 : k' = k₀
+      · simp [h1]
+      · have : ¬ k₀ = k' := fun e => h1 e.symm
+        simp [h1, this]
+    · simp only [ne_eq, h0, not_false_eq_true, decide_true, if_true, lookup, ih]
+      by_cases h1 : k₀ = k'
+      · subst h1; simp [h0]
+      · simp [h1]
+
+theorem shrinkLoopAsIs_spec (keys : List Bytes) : ∀ (m : List KV) (sk : List Bytes), keys.Nodup →
+    (shrinkLoopAsIs keys m sk).2 = sk ++ keys.filter (fun k => (lookup m k).isNone) ∧
+    ∀ k, lookup (shrinkLoopAsIs keys m sk).1 k =
+      if k ∈ keys ∧ lookup m k = some [] then none else lookup m k := by
+  induction keys with
+  | nil => intro m sk _; simp [shrinkLoopAsIs]
+  | cons x xs ih =>
+    intro m sk hnd
+    rw [List.nodup_cons] at hnd
+    obtain ⟨hx, hxs⟩ := hnd
+    simp only [shrinkLoopAsIs]
+    cases hl : lookup m x with
+    | none =>
+      simp only
+      obtain ⟨h1, h2⟩ := ih m (sk ++ [x]) hxs
+      refine ⟨?_, fun k => ?_⟩
+      · rw [h1]; simp [hl]
+      · rw [h2 k]
+        by_cases hk : k = x
+        · subst hk; simp [hl]
+        · simp [hk]
+    | some v =>
+      simp only
+      by_cases hv : v.isEmpty
+      · have hv' : v = [] := List.isEmpty_iff.1 hv
+        subst hv'
+        simp only [List.isEmpty_nil, if_true]
+        obtain ⟨h1, h2⟩ := ih (mapErase x m) sk hxs
+        refine ⟨?_, fun k => ?_⟩
+        · rw [h1]
+          have : xs.filter (fun k => (lookup (mapErase x m) k).isNone) = xs.filter (fun k => (lookup m k).isNone) := by
+            apply List.filter_congr
+            intro k hk
+            have : k ≠ x := fun e => hx (e ▸ hk)
+            simp [lookup_mapErase, this]
+          rw [this]; simp [hl]
+        · rw [h2 k]
+          by_cases hk : k = x
+          · subst hk; simp [lookup_mapErase, hl]
+          · simp [lookup_mapErase, hk]
+      · simp only [hv, Bool.false_eq_true, if_false]
+        obtain ⟨h1, h2⟩ := ih m sk hxs
+        refine ⟨?_, fun k => ?_⟩
+        · rw [h1]; simp [hl]
+        · rw [h2 k]
+          by_cases hk : k = x
+          · subst hk
+            have : v ≠ [] := fun e => hv (List.isEmpty_iff.2 e)
+            simp [hl, this, hx]
+          · simp [hk]
+
+theorem lookup_batchGetAsIs (snap buf : List KV) (keys : List Bytes) (hnd : keys.Nodup) (k : Bytes) :
+    lookup (batchGetAsIs snap buf keys) k = lookup (batchGet snap buf keys) k := by
+  unfold batchGetAsIs batchGet
+  simp only
+  split
+  · rfl
+  · obtain ⟨h1, h2⟩ := shrinkLoopAsIs_spec keys (bufBatchGet buf keys) [] hnd
+    rw [lookup_mergeInto, lookup_mergeInto, h1, h2 k, List.nil_append,
+      lookup_filter_visible _ (bufBatchGet_sorted buf keys), lookup_bufBatchGet]
+    by_cases hk : k ∈ keys
+    · cases hl : lookup buf k with
+      | none => simp [hk, visible]
+      | some v =>
+        by_cases hv : v = []
+        · subst hv; simp [hk, visible]
+        · simp [hk, visible, hv]
+    · simp [hk, visible]
+
 end CGV.UnionIter
